@@ -120,6 +120,47 @@ def _mech_job(args):
                 fired=sorted({f['rule'] for f in findings}) or [core.LAST_ERROR[-200:]])
 
 
+def c_rename_function(text, line, names):
+    """Source text with the parameters / locals `names` of the C function that starts at `line` renamed (x -> x_rn)."""
+    import re
+    lines = text.split('\n')
+    start = sum(len(l) + 1 for l in lines[:line - 1])
+    i = text.index('{', start)
+    depth = 0
+    end = None
+    for j in range(i, len(text)):
+        if text[j] == '{':
+            depth += 1
+        elif text[j] == '}':
+            depth -= 1
+            if depth == 0:
+                end = j + 1
+                break
+    if end is None:
+        return None
+    body = text[start:end]
+    for nm in sorted(set(names), key=len, reverse=True):
+        body = re.sub(r'(?<![\w.>])%s\b(?!\s*\()' % re.escape(nm), nm + '_rn', body)
+    return text[:start] + body + text[end:]
+
+
+def _mech_c_job(args):
+    from . import cli
+    prop, repo, rel, fname, line, names = args
+    text = (pathlib.Path(repo) / rel).read_text()
+    try:
+        new = c_rename_function(text, line, names)
+    except Exception:
+        new = None
+    if new is None or new == text:
+        return None
+    code, ctx, findings = cli.run(prop, 'quick', repo, c_overrides={rel: new}, write=False, quiet=True)
+    if code == 0:
+        return dict(name='crename:%s:%s' % (rel, fname), status='silent')
+    return dict(name='crename:%s:%s' % (rel, fname), status='FALSE-ALARM' if code == 1 else 'analysis-error',
+                fired=sorted({f['rule'] for f in findings}) or [core.LAST_ERROR[-200:]])
+
+
 KINDS = ('rename', 'flipcmp', 'swapif', 'guard', 'unguard', 'retvar', 'splitand')
 
 
@@ -150,8 +191,21 @@ def run_mechanical(prop, repo='/repo', jobs=None):
                 for kind in KINDS:
                     todo.append((prop, str(repo), rel, q, kind))
     out = []
+    ctodo = []
+    cfiles = [f for f in props[prop]['anchors'].get('files', []) if f.endswith('.c')]
+    if cfiles:
+        from .cmodel import CProgram
+        C = CProgram(repo)
+        for fname, f in sorted(C.funcs.items()):
+            if f.unit in cfiles:
+                names = [p for p, _ in f.params if p] + list(f.locals)
+                if names:
+                    ctodo.append((prop, str(repo), f.unit, fname, f.line, names))
     with cf.ProcessPoolExecutor(max_workers=jobs or min(16, os.cpu_count() or 4)) as ex:
         for r in ex.map(_mech_job, todo, chunksize=4):
+            if r:
+                out.append(r)
+        for r in ex.map(_mech_c_job, ctodo):
             if r:
                 out.append(r)
     return out
